@@ -27,6 +27,10 @@ def gen_cases(tier, seed):
     for i in range(60 if q else 1200):
         yield "sec1_candidates", {"salt": rng.getrandbits(40)}
     yield "sec1_lengths", {"salt": rng.getrandbits(40)}
+    for i in range(40 if q else 600):
+        yield "cli_pubkey", {"salt": rng.getrandbits(40), "fmt": ["raw", "hex", "bin"][i % 3]}
+    for i in range(24 if q else 300):
+        yield "cli_wif", {"salt": rng.getrandbits(40), "net": list(NETBASE)[i % 3], "type": TYPES[i % 8], "fmt": ["raw", "hex"][i % 2]}
     for net in NETBASE:
         for t in TYPES:
             yield "wif", {"net": net, "type": t, "salt": rng.getrandbits(40), "reps": 6 if q else 60}
@@ -46,7 +50,7 @@ def required(tier):
     return {"sec1.rt": 150, "sec1.cand": 3000, "sec1.cand.accept": 100, "sec1.class.len65_prefix02": 50, "sec1.class.offcurve": 50,
             "sec1.class.x_ge_p": 50, "sec1.class.hybrid": 50, "sec1.class.coord_plus_p": 100, "sec1.class.offcurve_pseudo_root": 50, "wif.rt": 140, "wif.corrupt": 500, "wif.unknown_version": 100,
             "wif.badkey_refused": 10, "pem.priv": 32, "pem.priv.ossl_reads": 32, "pem.priv.lib_reads_ossl": 32, "pem.pub": 100,
-            "pem.pub.ossl_reads": 100, "pem.pub.lib_reads_ossl": 100}
+            "pem.pub.ossl_reads": 100, "pem.pub.lib_reads_ossl": 100, "cli.pubkey": 150, "cli.pubkey_bad": 300, "cli.wif": 20}
 
 
 _SMALL_X = None
@@ -156,6 +160,70 @@ def run_case(kind, params, ctx):
             cands.append(("random", b))
         for cls, b in cands:
             _sec1_verdict(ctx, b, cls)
+        return
+    if kind == "cli_pubkey":
+        from . import clihelp
+        fmt = params["fmt"]
+        k = rng.randrange(1, N)
+        pt = secp.pub(k)
+        c, u = secp.sec1_encode(pt, True), secp.sec1_encode(pt, False)
+        x = pt[0]
+        while secp.SECP.lift_x(x) is not None:
+            x = (x + 1) % P
+        good = [("from-privkey", k32(k)), ("from-compressed", c), ("from-uncompressed", u)]
+        bad = [("x_ge_p", b"\x02" + (P + 5).to_bytes(32, "big")), ("offcurve", b"\x03" + x.to_bytes(32, "big")),
+               ("offcurve", b"\x04" + pt[0].to_bytes(32, "big") + ((pt[1] + 1) % P).to_bytes(32, "big")), ("hybrid", bytes([6 + (pt[1] & 1)]) + u[1:]),
+               ("other_prefix", b"\x05" + c[1:]), ("len65_prefix02", c + pt[1].to_bytes(32, "big")), ("len33_prefix04", b"\x04" + c[1:]),
+               ("x_ge_p", b"\x04" + (P + 1).to_bytes(32, "big") + pt[1].to_bytes(32, "big"))]
+        for want_c in (True, False):
+            for cls, data in good:
+                r = clihelp.run(["pubkey"] + (["-X"] if want_c else []) + [clihelp.fmt_flag(fmt), "-0x"], clihelp.rep(data, fmt))
+                ctx.count("cli.pubkey")
+                ctx.seen("clipk", (data, fmt, want_c))
+                if not r["ok"] or clihelp.parse_out(r["out"], "hex") != (c if want_c else u):
+                    ctx.violation(f"cli/pubkey-wrong/{cls}/{'compressed' if want_c else 'uncompressed'}-out", f"bits pubkey printed {r['out'][:70]!r} (ret {r['ret']!r}) for {data.hex()}")
+            for cls, data in bad:
+                r = clihelp.run(["pubkey"] + (["-X"] if want_c else []) + [clihelp.fmt_flag(fmt), "-0x"], clihelp.rep(data, fmt))
+                ctx.count("cli.pubkey_bad")
+                ctx.seen("clipkb", (data, fmt, want_c))
+                if r["ok"] and r["out"].strip():
+                    ctx.violation(f"cli/pubkey-accepts-malformed/{cls}/{'compressed' if want_c else 'uncompressed'}-out", f"bits pubkey {'-X ' if want_c else ''}accepted {data.hex()} and printed {r['out'][:70]!r}")
+        # PEM output must load in OpenSSL
+        from cryptography.hazmat.primitives import serialization
+        r = clihelp.run(["pubkey", "-X", clihelp.fmt_flag(fmt), "-0pem"], clihelp.rep(k32(k), fmt))
+        try:
+            opk = serialization.load_pem_public_key(r["out"])
+            if (opk.public_numbers().x, opk.public_numbers().y) != pt:
+                ctx.violation("cli/pubkey-pem-different-key", "OpenSSL reads another point")
+        except Exception as e:
+            ctx.violation("cli/pubkey-pem-unreadable", f"{type(e).__name__}: {e}: {r['out'][:80]!r}")
+        return
+    if kind == "cli_wif":
+        from . import clihelp
+        import json as _json
+        net, typ, fmt = params["net"], params["type"], params["fmt"]
+        k = rng.randrange(1, N)
+        suffix = rand_bytes(rng, rng.choice([0, 1, 22, 71]))
+        exp = r58.check_encode(bytes([NETBASE[net] + TYPES.index(typ)]) + k32(k) + suffix)
+        argv = ["wif", "-T", typ, "-N", net] + (["-D", suffix.hex()] if suffix else []) + [clihelp.fmt_flag(fmt)]
+        r = clihelp.run(argv, clihelp.rep(k32(k), fmt))
+        ctx.count("cli.wif")
+        ctx.seen("cliwif", (k, net, typ, suffix))
+        if not r["ok"] or r["out"] != exp:
+            ctx.violation(f"cli/wif-encode-wrong/{net}/{typ}", f"bits {' '.join(argv)} printed {r['out'][:60]!r} (ret {r['ret']!r}), reference {exp!r}")
+            return
+        r2 = clihelp.run(["wif", "--decode"], exp)
+        try:
+            d = _json.loads(r2["out"].decode())
+        except Exception:
+            d = None
+        nc = "mainnet" if net == "mainnet" else "testnet"
+        if not d or (d.get("network"), d.get("addr_type"), d.get("key"), d.get("data")) != (nc, typ, k32(k).hex(), suffix.hex()):
+            ctx.violation(f"cli/wif-decode-wrong/{net}/{typ}", f"bits wif --decode printed {r2['out'][:120]!r}")
+        for badk in (b"\x00" * 32, N.to_bytes(32, "big"), b"\x01" * 31):
+            rb = clihelp.run(["wif", "-1"], badk)
+            if rb["ok"] and rb["out"].strip():
+                ctx.violation("cli/wif-encodes-invalid-key", f"bits wif accepted {badk.hex()}")
         return
     if kind == "sec1_lengths":
         for ln in range(0, 71):
